@@ -44,6 +44,7 @@ const SERVER_PATTERNS: &[&str] = &[
     "unknown-frame-flood",
     "padded-data-flood",
     "abandon-accepted",
+    "answered-then-reset-by-peer",
     "unit-flood",
     "unit-flood",
     "unit-flood",
@@ -169,6 +170,20 @@ pub fn build(c: &FloodCase, n: usize) -> RawCase {
                 if every > 0 && i % every == 0 {
                     script.push(PStep::Yield(2));
                 }
+            }
+        }
+        "answered-then-reset-by-peer" => {
+            // the application answers every request at once; the peer resets each stream right after opening it
+            // and goes on (with the endpoint's writes blocked the answers cannot leave)
+            let every = *pr.pick(&[0usize, 1, 4, 16]);
+            for i in 0..n {
+                let id = next;
+                next += 2;
+                script.push(hdr(id, "GET", true));
+                if every > 0 && i % every == 0 {
+                    script.push(PStep::Yield(3));
+                }
+                script.push(fr(Frame::Rst { stream: id, code: 8 }));
             }
         }
         "unit-flood" => {
@@ -433,6 +448,34 @@ fn measure(case: &RawCase, rr: &RawRun) -> Peak {
     p
 }
 
+/// Name of the pattern as it appears in signatures: generated unit floods are described by what they are made of
+/// (frame kinds of the unit, application behaviour, whether the endpoint's writes were blocked).
+pub fn pattern_descr(c: &FloodCase) -> String {
+    let blocked = if c.block_writes { ";writes-blocked" } else { "" };
+    if c.pattern != "unit-flood" {
+        return format!("{}{}", c.pattern, if c.block_writes { ":writes-blocked" } else { "" });
+    }
+    // mirror of the draws in `build` (same tape, same order)
+    let mut pr = Tape::new(&c.params);
+    let app = ["respond", "hold", "abandon", "respond-no-read"][pr.below(4)];
+    let has_long = pr.bool();
+    if has_long {
+        let _ = pr.bool();
+    }
+    let nt = 1 + pr.below(4);
+    const KINDS: [&str; 11] = ["open", "rst", "data", "window-update", "priority", "ping", "settings", "unknown", "malformed-open", "trailers", "open-fragmented"];
+    let mut kinds: Vec<&str> = (0..nt)
+        .map(|_| {
+            let k = pr.weighted(&[5, 4, 4, 2, 2, 1, 1, 1, 2, 2, 1]);
+            let _ = (pr.u32(), pr.u32(), pr.u32());
+            KINDS[k]
+        })
+        .collect();
+    kinds.sort();
+    kinds.dedup();
+    format!("unit-flood[{};app={}{}]", kinds.join("+"), app, blocked)
+}
+
 pub struct FloodEngine;
 
 impl Engine for FloodEngine {
@@ -461,8 +504,8 @@ impl Engine for FloodEngine {
         }
         cfg.reset_dur_zero = t.chance(1, 4);
         let heavy = matches!(pattern.as_str(), "data-on-closed-streams" | "headers-then-reset-by-error");
-        let block_writes = matches!(pattern.as_str(), "ping-flood" | "settings-flood" | "open-and-reset" | "data-on-closed-streams" | "headers-then-reset-by-error" | "abandon-accepted" | "streams-over-limit" | "unit-flood") && t.bool();
-        if matches!(pattern.as_str(), "abandon-accepted" | "unit-flood") && cfg.max_concurrent.is_none() {
+        let block_writes = matches!(pattern.as_str(), "ping-flood" | "settings-flood" | "open-and-reset" | "data-on-closed-streams" | "headers-then-reset-by-error" | "abandon-accepted" | "streams-over-limit" | "unit-flood" | "answered-then-reset-by-peer") && t.bool();
+        if matches!(pattern.as_str(), "abandon-accepted" | "unit-flood" | "answered-then-reset-by-peer") && cfg.max_concurrent.is_none() {
             // (streams the peer may legitimately keep open are bounded only by a configured limit)
             cfg.max_concurrent = Some(*t.pick(&[1u32, 2, 5, 20, 100]));
         }
@@ -494,6 +537,7 @@ impl Engine for FloodEngine {
     fn run(&self, c: &FloodCase) -> Outcome {
         let mut out = Outcome::default();
         out.label(format!("pattern:{}{}", c.pattern, if c.block_writes { ":writes-blocked" } else { "" }));
+        let descr = pattern_descr(c);
         let c1 = build(c, c.n);
         let c2 = build(c, 2 * c.n);
         let c4 = build(c, 4 * c.n);
@@ -530,7 +574,7 @@ impl Engine for FloodEngine {
                 out.fail(
                     "C18",
                     "plateau",
-                    format!("C18/{}/{}/{}-grows-with-flood-length", role, c.pattern, what),
+                    format!("C18/{}/{}/{}-grows-with-flood-length", role, descr, what),
                     format!("pattern {} (accept_limit {:?}, max_concurrent {:?}): {} is {} after n={} repetitions, {} after 2n and {} after 4n, with the connection still up and no error signalled", c.pattern, c.accept_limit, c.cfg.max_concurrent, what, a, c.n, b, d),
                 );
             }
